@@ -12,7 +12,7 @@ import sys
 import traceback
 from fractions import Fraction
 
-SLACK = Fraction(1, 10 ** 9)
+SLACK = Fraction(1, 10 ** 12)       # relative to the magnitude of the inputs (float noise is ~1e-16 relative)
 
 
 class NoReplay(Exception):
@@ -59,6 +59,32 @@ def exact(v):
     return v
 
 
+def _float_leaves(v, depth=0, seen=None):
+    """all float values reachable from the inputs (tuples, lists, dicts, object attributes)"""
+    seen = seen if seen is not None else set()
+    if depth > 6 or id(v) in seen:
+        return
+    if isinstance(v, float):
+        if v == v and abs(v) != float('inf'):
+            yield v
+        return
+    if isinstance(v, (int, str, bytes, bool)) or v is None:
+        return
+    seen.add(id(v))
+    if isinstance(v, dict):
+        for x in v.values():
+            for y in _float_leaves(x, depth + 1, seen):
+                yield y
+    elif isinstance(v, (tuple, list)):
+        for x in v:
+            for y in _float_leaves(x, depth + 1, seen):
+                yield y
+    elif hasattr(v, '__dict__'):
+        for x in vars(v).values():
+            for y in _float_leaves(x, depth + 1, seen):
+                yield y
+
+
 class CEval(object):
     """concrete evaluator of the spec dialect on real Python objects"""
 
@@ -66,6 +92,7 @@ class CEval(object):
         self.reg = reg
         self.env = env
         self.old_env = old_env
+        self.scale = Fraction(max([1.0] + [abs(x) for x in _float_leaves(env)]))
 
     def ev(self, n, env=None):
         env = self.env if env is None else env
@@ -158,7 +185,7 @@ class CEval(object):
         num = lambda x: isinstance(x, (int, Fraction)) and not isinstance(x, bool)   # noqa
         inexact = (isinstance(a, Fraction) and a.denominator != 1) or (isinstance(b, Fraction) and b.denominator != 1)
         if num(a) and num(b) and inexact:
-            tol = SLACK * (1 + abs(a) + abs(b))
+            tol = SLACK * (self.scale + abs(a) + abs(b))
             if isinstance(op, ast.Eq):
                 return abs(a - b) <= tol
             if isinstance(op, ast.NotEq):
@@ -197,7 +224,7 @@ class CEval(object):
                 a2, b2 = Fraction(a), Fraction(b)
             except Exception:
                 return a == b
-            return abs(a2 - b2) <= SLACK * (1 + abs(a2) + abs(b2))
+            return abs(a2 - b2) <= SLACK * (self.scale + abs(a2) + abs(b2))
         return a == b
 
     def c_Compare(self, n, env):
